@@ -119,3 +119,118 @@ def multiname_contract(run, twin=None):
         prove('valid-names-are-the-definitions-in-order', [id(x) for x in vn] == [id(x) for x in alts if x is not undef], path=p)
         prove('first-name-is-the-first-definition', Nm.first_name(m) is vn[0], path=p)
     core.explore(body, on_path)
+
+
+@harness(['C17', 'C06'], 'supp.evaluator.EvalCtx._evaluate[MultiName] / declarations[MultiName]')
+def evaluate_multiname_order(run):
+    """evaluating a multiply-bound name: the values of the resulting CompositeValue are the values of the alternatives in the order of the
+    alternatives (source order), and declarations() lists the alternatives in that order - whatever order any set would be iterated in
+    (set iteration is an arbitrary permutation in the namespace the function runs in: all permutations explored)"""
+    import supp.name as Nm
+    import supp.evaluator as E
+    f = loader.load('supp.evaluator', 'EvalCtx._evaluate', stubs={'set': PermSet, 'list': lambda x=(): x.permuted() if isinstance(x, PermSet) else list(x),
+                                                                  'frozenset': PermSet})
+    fd = loader.load('supp.evaluator', 'EvalCtx.declarations', stubs={'set': PermSet, 'list': lambda x=(): x.permuted() if isinstance(x, PermSet) else list(x)})
+    holder = {}
+
+    def body():
+        alts = [Nm.AssignedName('v', (i + 1, 0), (i + 1, 0), None) for i in range(4)]
+        m = Nm.MultiName(alts + [Nm.UndefinedName('v')])
+        vals = {id(a): Nm.AttrObject({'n': i}) for i, a in enumerate(alts)}
+
+        class Ctx(object):
+            def evaluate(self, n):
+                return vals.get(id(n))
+        holder.update(alts=alts, vals=vals)
+        c = Ctx()
+        r = f(c, m)
+        d = fd(c, m, [])
+        return r, d
+
+    def on_path(p, out):
+        if out[0] != 'ok':
+            prove('no-exception(%s)' % type(out[1]).__name__, False, path=p)
+            return
+        r, d = out[1]
+        alts, vals = holder['alts'], holder['vals']
+        ok = isinstance(r, Nm.CompositeValue) and [id(v) for v in r.values] == [id(vals[id(a)]) for a in alts]
+        prove('values-in-the-order-of-the-alternatives', ok, clause='CompositeValue.values follow the source order of the definitions', path=p)
+        ok2 = len(d) == 1 and [id(x) for x in d[0]] == [id(a) for a in alts]
+        prove('declarations-list-the-alternatives-in-source-order', ok2, path=p)
+    core.explore(body, on_path)
+
+
+# the sets that are iterated on the way to an ordered answer, each with the reason its order cannot reach the output
+SET_SITES_ALLOWED = {
+    ('supp/scope.py', 'Flow.parent_names'): (3, 'nameset / nrow / outer_names: rows are re-ordered by MultiName.__init__ (proved above); table key order never reaches an output (assist sorts, lint walks reads and regions)'),
+    ('supp/name.py', 'AdditionalNameWrapper.attr_list'): (2, 'a set of attribute names: assist sorts'),
+    ('supp/name.py', 'CompositeValue.attr_list'): (1, 'a set of attribute names: assist sorts'),
+    ('supp/name.py', 'MultiValue.attr_list'): (1, 'a set of attribute names: assist sorts'),
+    ('supp/assistant.py', 'assist'): (2, 'set(plist) | set(names): sorted'),
+    ('supp/project.py', 'Project.__init__'): (1, 'dyn_modules: membership tests only'),
+    ('supp/project.py', 'Project.list_packages'): (1, 'a set of names: its only consumer sorts'),
+    ('supp/linter.py', 'lint'): (1, 'qualified_imports: membership tests only'),
+    ('supp/evaluator.py', 'EvalCtx.__init__'): (1, 'nodes: membership tests only'),
+    ('supp/scope.py', 'Scope.__init__'): (3, 'locals / globals / nonlocals: membership tests and set difference only'),
+}
+
+
+@harness(['C17'], 'supp/*.py [frame scan: sets on the way to ordered output]')
+def set_sites_scan(run):
+    """mechanical scan of the modules between the entry points and the answers (assistant, linter, evaluator, name, scope, project, nast,
+    module, merged_dict): every construction of a set (set(...), frozenset(...), set display, set comprehension) sits in a function
+    listed with the reason its iteration order cannot reach an ordered result; no use of id(), hash(), random, time in those modules"""
+    import ast
+    import os
+
+    def go(path):
+        found = {}
+        banned = []
+        for mod in ('assistant', 'linter', 'evaluator', 'name', 'scope', 'project', 'nast', 'module', 'merged_dict'):
+            fn = os.path.join(core.REPO, 'supp', mod + '.py')
+            tree = ast.parse(open(fn).read())
+            stack = []
+
+            class V(ast.NodeVisitor):
+                def visit_ClassDef(self, n):
+                    stack.append(n.name)
+                    self.generic_visit(n)
+                    stack.pop()
+
+                def visit_FunctionDef(self, n):
+                    stack.append(n.name)
+                    self.generic_visit(n)
+                    stack.pop()
+                visit_AsyncFunctionDef = visit_FunctionDef
+
+                def hit(self, n):
+                    key = ('supp/%s.py' % mod, '.'.join(stack) or '<module>')
+                    found[key] = found.get(key, 0) + 1
+
+                def visit_Call(self, n):
+                    if isinstance(n.func, ast.Name) and n.func.id in ('set', 'frozenset'):
+                        self.hit(n)
+                    if isinstance(n.func, ast.Name) and n.func.id in ('id', 'hash'):
+                        banned.append(('supp/%s.py' % mod, '.'.join(stack), n.func.id))
+                    self.generic_visit(n)
+
+                def visit_Set(self, n):
+                    self.hit(n)
+                    self.generic_visit(n)
+
+                def visit_SetComp(self, n):
+                    self.hit(n)
+                    self.generic_visit(n)
+
+                def visit_Import(self, n):
+                    for a in n.names:
+                        if a.name.split('.')[0] in ('random', 'time', 'uuid'):
+                            banned.append(('supp/%s.py' % mod, 'import', a.name))
+            V().visit(tree)
+        for key, cnt in sorted(found.items()):
+            allowed = SET_SITES_ALLOWED.get(key)
+            prove('set-site-%s:%s' % key, allowed is not None and cnt <= allowed[0],
+                  clause='%d set construction(s) in %s %s: %s' % (cnt, key[0], key[1], allowed[1] if allowed else
+                                                                 'NOT LISTED - its iteration order may reach an ordered answer'), path=path)
+        prove('no-identity-hash-random-time', not banned, clause='no id() / hash() / random / time in the analysis modules [%r]' % (banned,), path=path)
+    core.explore(lambda: None, lambda p, out: go(p))
